@@ -32,10 +32,42 @@ SeriesClauses(e, o) ==
       \* the last output lies in the 1 h window of the last input sample
       \cup (IF LastWindowHasOutput(o.c1, o.c2, 3600000) THEN {} ELSE {"last-output-in-window-of-last-input-sample"})
 
+(* Block level (mode "block": the real downsample.Downsample, 5 m block -> 1 h block).        *)
+(*   blocks.b1 / b2   [res, mint, maxt, nseries, extra, statseries] of the 5 m / 1 h block:    *)
+(*                    declared resolution, declared time range [mint, maxt), series in the      *)
+(*                    index, series in the index that are none of the input's                   *)
+(*   obs[i].in2, lbl2 series i is in the 1 h block's index / with exactly its labels            *)
+BlockClauses(e) ==
+    IF ~e.hasblk THEN {}
+    ELSE LET b1 == e.blocks.b1  b2 == e.blocks.b2 IN
+      \* "of every series": a series is its label set; every series of the input is a series of
+      \* the output, unchanged, and nothing else is
+      (IF \A i \in DOMAIN e.obs : e.obs[i].c1 # <<>> => e.obs[i].in2 /\ e.obs[i].lbl2
+         THEN {} ELSE {"every-series-kept-with-its-labels"})
+      \cup (IF b2.extra = 0 THEN {} ELSE {"no-series-invented"})
+      \* "to a coarser resolution": the output says so (readers pick blocks by it)
+      \cup (IF b1.res = 300000 /\ b2.res = 3600000 THEN {} ELSE {"output-declares-the-coarser-resolution"})
+      \* "within the input's time span", block level: the output block claims no time outside the
+      \* input block, and every output sample lies inside the range the output block declares
+      \cup (IF b2.mint >= b1.mint /\ b2.maxt <= b1.maxt THEN {} ELSE {"output-block-range-within-input-block"})
+      \cup (IF \A i \in DOMAIN e.obs : OutputsWithin(e.obs[i].c2, b2.mint, b2.maxt - 1)
+            THEN {} ELSE {"outputs-within-declared-block-range"})
+
 Judge(e) ==
     IF e.got.kind # "ok" THEN {"re-downsampling-succeeds"}
     ELSE IF ~e.ok \/ ~e.aligned THEN {"totals-conserved"}    \* integers in, integers out; one timestamp per output
-    ELSE UNION { SeriesClauses(e, e.obs[i]) : i \in DOMAIN e.obs }
+    ELSE UNION { SeriesClauses(e, e.obs[i]) : i \in DOMAIN e.obs } \cup BlockClauses(e)
+
+(* Block-level conformance with what Downsample does today (never a verdict): meta copied     *)
+(* from the source except resolution, series without numbers not written, stats = index.       *)
+BlockDrift(e) ==
+    /\ e.got.kind = "ok" /\ e.hasblk
+    /\ LET src == e.blocks.src  b1 == e.blocks.b1  b2 == e.blocks.b2
+           live == { i \in DOMAIN e.in.series : \E k \in DOMAIN e.in.series[i].ks : e.in.series[i].ks[k] = "F" }
+       IN ~(/\ b1.mint = src.mint /\ b1.maxt = src.maxt /\ b2.mint = src.mint /\ b2.maxt = src.maxt
+            /\ b1.nseries = Cardinality(live) /\ b2.nseries = Cardinality(live)
+            /\ b1.statseries = b1.nseries /\ b2.statseries = b2.nseries
+            /\ \A i \in DOMAIN e.obs : e.obs[i].in1 = (i \in live) /\ e.obs[i].in2 = (i \in live))
 
 (* Model conformance (never a verdict): the 1 h chunks are what the transcription makes of   *)
 (* the observed 5 m chunks (loop and chunks mode, where the chunk count is known).                      *)
@@ -48,7 +80,7 @@ VARIABLE l
 TraceInit == l = 1
 TraceNext == /\ l <= TraceLen
              /\ CaseReject(l, Trace[l], Judge(Trace[l]))
-             /\ (IF Drift(Trace[l]) THEN PrintT(<<"DRIFT", l, Trace[l]["case"]>>) ELSE TRUE)
+             /\ (IF Drift(Trace[l]) \/ BlockDrift(Trace[l]) THEN PrintT(<<"DRIFT", l, Trace[l]["case"]>>) ELSE TRUE)
              /\ l' = l + 1
 TraceSpec == TraceInit /\ [][TraceNext]_l
 TraceAccepted == TLCGet("stats").diameter = TraceLen + 1
